@@ -197,6 +197,28 @@ func preload(tx *gorm.DB, rel *schema.Relationship, conds []interface{}, preload
 		inlineConds      []interface{}
 	)
 
+	cleanUp := func() {
+		// clean up old values before preloading
+		switch reflectValue.Kind() {
+		case reflect.Struct:
+			switch rel.Type {
+			case schema.HasMany, schema.Many2Many:
+				tx.AddError(rel.Field.Set(tx.Statement.Context, reflectValue, reflect.MakeSlice(rel.Field.IndirectFieldType, 0, 10).Interface()))
+			default:
+				tx.AddError(rel.Field.Set(tx.Statement.Context, reflectValue, reflect.New(rel.Field.FieldType).Interface()))
+			}
+		case reflect.Slice, reflect.Array:
+			for i := 0; i < reflectValue.Len(); i++ {
+				switch rel.Type {
+				case schema.HasMany, schema.Many2Many:
+					tx.AddError(rel.Field.Set(tx.Statement.Context, reflectValue.Index(i), reflect.MakeSlice(rel.Field.IndirectFieldType, 0, 10).Interface()))
+				default:
+					tx.AddError(rel.Field.Set(tx.Statement.Context, reflectValue.Index(i), reflect.New(rel.Field.FieldType).Interface()))
+				}
+			}
+		}
+	}
+
 	if rel.JoinTable != nil {
 		var (
 			joinForeignFields    = make([]*schema.Field, 0, len(rel.References))
@@ -220,6 +242,7 @@ func preload(tx *gorm.DB, rel *schema.Relationship, conds []interface{}, preload
 
 		joinIdentityMap, joinForeignValues := schema.GetIdentityFieldValuesMap(tx.Statement.Context, reflectValue, foreignFields)
 		if len(joinForeignValues) == 0 {
+			cleanUp()
 			return nil
 		}
 
@@ -266,6 +289,7 @@ func preload(tx *gorm.DB, rel *schema.Relationship, conds []interface{}, preload
 
 		identityMap, foreignValues = schema.GetIdentityFieldValuesMap(tx.Statement.Context, reflectValue, foreignFields)
 		if len(foreignValues) == 0 {
+			cleanUp()
 			return nil
 		}
 	}
@@ -294,25 +318,7 @@ func preload(tx *gorm.DB, rel *schema.Relationship, conds []interface{}, preload
 
 	fieldValues := make([]interface{}, len(relForeignFields))
 
-	// clean up old values before preloading
-	switch reflectValue.Kind() {
-	case reflect.Struct:
-		switch rel.Type {
-		case schema.HasMany, schema.Many2Many:
-			tx.AddError(rel.Field.Set(tx.Statement.Context, reflectValue, reflect.MakeSlice(rel.Field.IndirectFieldType, 0, 10).Interface()))
-		default:
-			tx.AddError(rel.Field.Set(tx.Statement.Context, reflectValue, reflect.New(rel.Field.FieldType).Interface()))
-		}
-	case reflect.Slice, reflect.Array:
-		for i := 0; i < reflectValue.Len(); i++ {
-			switch rel.Type {
-			case schema.HasMany, schema.Many2Many:
-				tx.AddError(rel.Field.Set(tx.Statement.Context, reflectValue.Index(i), reflect.MakeSlice(rel.Field.IndirectFieldType, 0, 10).Interface()))
-			default:
-				tx.AddError(rel.Field.Set(tx.Statement.Context, reflectValue.Index(i), reflect.New(rel.Field.FieldType).Interface()))
-			}
-		}
-	}
+	cleanUp()
 
 	for i := 0; i < reflectResults.Len(); i++ {
 		elem := reflectResults.Index(i)
